@@ -231,14 +231,14 @@ func RunC01(tier, replay string) int {
 			defs = append(defs, EnumerateStackDefs("K", minStack, 3)...)
 			defs = append(defs, DeepRefDefs("R")...)
 		}
-		if os.Getenv("VERIF_C01_ONLY") != "" {
+		if o := os.Getenv("VERIF_C01_ONLY"); o != "" && o != "universe" { // "universe": only the model universe
 			defs = nil
 		}
 		for _, sp := range SpecialDefs() { // tuples, polymorphism, odd property names, allOf of maps
 			defs = append(defs, sp.Def)
 		}
 		defs = append(defs, c01EnumPairDefs()...)
-		for _, d := range c01NamePropDefs(c01Names(tier)) {
+		for _, d := range c01NamePropDefs(c01Names("quick")) {
 			// like the carriers of (3): a name go-openapi/spec itself cannot re-serialise (a quote or backslash in a
 			// property name breaks OrderSchemaItems.MarshalJSON) is unloadable input, not a generator case
 			if err := validSpec(modelsDoc([]DefCase{d})); err != nil {
@@ -304,15 +304,11 @@ func RunC01(tier, replay string) int {
 		}
 		// ---- (9) one name in one parameter position at a time, packed
 		{
-			nops := c01NameOps(c01Names(tier))
+			nops := c01NameOps(c01Names("quick")) // the quick name list in both tiers (the thorough list goes through the carriers)
 			for i := range nops {
 				nops[i].ID = fmt.Sprintf("n%04d", i)
 			}
-			if tier == "thorough" {
-				addPacks(nops, "server", "client", "cli")
-			} else {
-				addPacks(nops, "server", "client")
-			}
+			addPacks(nops, "server", "client")
 		}
 		// ---- (3) names
 		nameTargets := []string{"server", "client"}
@@ -376,18 +372,12 @@ func RunC01(tier, replay string) int {
 		{
 			gen1, _ := xplore.Collect(xplore.Options{MaxDeviations: 1}, genParamOp)
 			modeOps := gen1
-			if tier == "thorough" {
-				modeOps = gen
-			}
 			modeOps = append(append([]OpCase{}, modeOps...), c03SpecialOps()...)
 			modeOps = append(modeOps, c01ResponseOps()...)
 			for i := range modeOps {
 				modeOps[i].ID = fmt.Sprintf("f%04d", i)
 			}
 			modeTargets := []string{"server"}
-			if tier == "thorough" {
-				modeTargets = []string{"server", "client"}
-			}
 			for _, mode := range [][]string{{"--with-flatten=full"}, {"--with-expand"}} {
 				for lo := 0; lo < len(modeOps); lo += per {
 					hi := lo + per
@@ -403,10 +393,7 @@ func RunC01(tier, replay string) int {
 		}
 		// ---- (10) the specs of C08 (colliding names in every position, multi-operation shapes): C08 leaves "exits 0
 		// but does not build" to this check, so this check has to build them
-		c08Targets := []string{"server"} // quick: the server target (the one C08 itself generates); thorough: client too
-		if tier == "thorough" {
-			c08Targets = []string{"server", "client"}
-		}
+		c08Targets := []string{"server"} // the target C08 itself generates and leaves to this check
 		for _, cc := range c08Cases(tier) {
 			for _, t := range c08Targets {
 				cases = append(cases, c01Case{Name: "C08 spec: " + cc.Name, Class: "c08:" + cc.Class + ":" + cc.Name, Doc: cc.Doc, Target: t, Args: cc.Args, RefusalOK: true})
@@ -436,7 +423,10 @@ func RunC01(tier, replay string) int {
 				keep = append(keep, c)
 			}
 		}
-		cases, modelSingles = keep, nil
+		cases = keep
+		if only != "universe" {
+			modelSingles = nil
+		}
 		r.Prop = "C01dev"
 	}
 	r.Extra["generate_and_build_cases"] = len(cases)
